@@ -228,7 +228,7 @@ PROPS["C10"] = dict(
               "Kust.C10.literal_copied_verbatim", "Kust.C10.source_unique_and_current", "Kust.C10.last_sees_predecessors",
               "Kust.C10.target_pieces_exact", "Kust.C10.source_piece", "Kust.C10.setPieces_replace",
               "Kust.C10.modifyAt_same", "Kust.C10.modifyAt_frame", "Kust.C10.writeAll_frame", "Kust.C10.copyOne_frame",
-              "Kust.C10.copyOne_single_scalar", "Kust.C10.setFieldValue_scalar", "Kust.C10.setFieldValue_nonscalar"],
+              "Kust.C10.copyOne_single_scalar", "Kust.C10.copyOne_every_scalar", "Kust.C10.denote_pairwise", "Kust.C10.writeAll_each", "Kust.C10.setFieldValue_scalar", "Kust.C10.setFieldValue_nonscalar"],
     components=["image.update", "image.split", "repl.apply", "repl.tree", "match.path"],
     oracle=True,
     n_corr={"quick": 4000, "thorough": 40000}, n_oracle={"quick": 1200, "thorough": 15000},
